@@ -47,6 +47,12 @@ func run(out *Out, r *Rand, tier string, replay []string) {
 				doHostileLine(out, f)
 			case "recrender":
 				doRecRenderLine(out, f)
+			case "liststr":
+				doListStrLine(out, f)
+			case "reghist":
+				doRegHistLine(out, f)
+			case "schemadef":
+				emitRegDefs(out)
 			default:
 				panic("bad case " + l)
 			}
